@@ -141,13 +141,13 @@ def check_listing(ctx, tc):
             if not extra and listed[name] == whole:
                 # Tezos has no name for the root here (default is a branch): the invented one collides.  If Tezos does fix the
                 # root's name (default) the clash is a different, more serious class.
-                if not tc.root_asserted:
+                if not tc.root_asserted and name == 'root':
                     # a branch annotated %root while %default is taken too: whether Tezos admits a branch of that (reserved) name is
                     # not certain enough to alarm -> outside the compared domain
                     ctx.skip('branch named %root together with a %default branch (reserved-name corner)')
                     tc.collision = True
                     return False
-                ctx.mismatch('C13:list_entrypoints:root-not-default:collides-with-branch',
+                ctx.mismatch('C13:list_entrypoints:root-not-default:collides-with-branch' if tc.root_asserted else 'C13:list_entrypoints:root-name-collides-with-branch',
                              'parameter %s: the name pytezos gives to the whole parameter (%r) is also the annotation of a branch; the branch of type %s '
                              'is listed with the type of the whole parameter' % (michelson(T), name, plain(bt)), tc.case(kind='list'))
                 tc.collision = True
